@@ -19,7 +19,9 @@
 
 namespace {
 
-// hit: offset of the single true value, -1 none, -2 = every third value true
+// hit: offset of the single true value, -1 none, -2 = every third value true, -3 = EVERY value true and the first
+// min(threads, n) callback invocations wait for each other before returning (rendezvous): at least two workers are then
+// inside the "callback returned true" path at once, so an unsynchronised access to the shared result is not left to luck
 struct Cfg { int fn; int64_t start; uint64_t n, block; size_t threads; int64_t hit; bool progress; };
 
 template <class IntT>
@@ -30,13 +32,20 @@ std::string run(const Cfg& c) {
   std::vector<uint32_t> tn_seen(c.n, 0);
   std::atomic<uint64_t> outside{0};
   size_t nthreads = c.threads ? c.threads : std::thread::hardware_concurrency();
-  auto truth = [&](uint64_t off) { return c.hit == -2 ? (off % 3 == 1) : ((int64_t)off == c.hit); };
+  auto truth = [&](uint64_t off) { return c.hit == -3 ? true : c.hit == -2 ? (off % 3 == 1) : ((int64_t)off == c.hit); };
   uint64_t start_ext = (uint64_t)c.start;
+  std::atomic<uint64_t> entered{0};
+  uint64_t rendezvous = c.hit == -3 ? std::min<uint64_t>(nthreads, c.n) : 0;
   std::function<bool(IntT, size_t)> cb = [&](IntT v, size_t tn) {
     uint64_t off = (uint64_t)v - start_ext;
     if (off >= c.n) { outside++; return false; }
     hits[off]++;
     tn_seen[off] = (uint32_t)tn;
+    if (rendezvous > 1) {
+      entered++;
+      // bounded wait (a worker that has already left cannot come back): ~50 ms
+      for (int spin = 0; spin < 5000 && entered.load() < rendezvous; spin++) usleep(10);
+    }
     return truth(off);
   };
   std::atomic<uint64_t> polls{0};
@@ -108,7 +117,8 @@ VF_SECTION(tsan_free_running, 4, 8, 300) {
         for (size_t t = 0; t <= 16; t++) {
           if (!r.thorough() && !(t <= 4 || t == 8 || t == 16)) continue;
           if (rg.ty != 0 && !(t == 0 || t == 2 || t == 3 || t == 8 || (r.thorough() && t == 16))) continue;
-          for (int64_t hit : {(int64_t)-1, (int64_t)0, (int64_t)(n / 2), (int64_t)(n - 1), (int64_t)-2}) {
+          for (int64_t hit : {(int64_t)-1, (int64_t)0, (int64_t)(n / 2), (int64_t)(n - 1), (int64_t)-2, (int64_t)-3}) {
+            if (hit == -3 && (n < 2 || n > 64)) continue;
             if (hit >= 0 && (uint64_t)hit >= n) continue;
             if (hit == (int64_t)(n - 1) && (hit == (int64_t)(n / 2) || hit == 0)) continue;
             for (int prog = 0; prog < 2; prog++) {
@@ -133,7 +143,7 @@ VF_SECTION(tsan_free_running, 4, 8, 300) {
       }
     }
   }
-  r.bound = "supportive: free-running executions under ThreadSanitizer: uint64_t ranges {0,1,7,64,5000} x threads 0..16 x block sizes x hit positions; int8/int16/int32/int64/uint8 ranges crossing zero and at the type minimum/maximum x threads {0,2,3,8}; counting progress_fn on the small ranges (sampled schedules, not exhaustive)";
+  r.bound = "supportive: free-running executions under ThreadSanitizer: uint64_t ranges {0,1,7,64,5000} x threads 0..16 x block sizes x hit positions (none, first, middle, last, every third, and every value true with a rendezvous of the first callbacks so that several workers report a hit at the same time); int8/int16/int32/int64/uint8 ranges crossing zero and at the type minimum/maximum x threads {0,2,3,8}; counting progress_fn on the small ranges (sampled schedules, not exhaustive)";
 }
 
 VF_MAIN()
